@@ -62,9 +62,9 @@ func (n *Node) detach() {
 }
 
 // Constructors.
-func Nil() *Node           { return &Node{K: KNil} }
-func Bool(b bool) *Node    { return &Node{K: KBool, B: b} }
-func Str(s string) *Node   { return &Node{K: KStr, S: s} }
+func Nil() *Node            { return &Node{K: KNil} }
+func Bool(b bool) *Node     { return &Node{K: KBool, B: b} }
+func Str(s string) *Node    { return &Node{K: KStr, S: s} }
 func Float(f float64) *Node { return &Node{K: KFloat, F: f} }
 func Int(i int64) *Node {
 	if i > 0 {
@@ -377,10 +377,10 @@ func PathString(segs []Seg, sep string) string {
 type Status int
 
 const (
-	Found    Status = iota
-	Absent          // legal address, nothing stored there (missing key, index past the end, or nil on the way)
-	ThroughPrim     // the address steps through (or into) a primitive: illegal
-	KindClash       // a name is used on a list or an index on a dictionary: outside the modelled domain
+	Found       Status = iota
+	Absent             // legal address, nothing stored there (missing key, index past the end, or nil on the way)
+	ThroughPrim        // the address steps through (or into) a primitive: illegal
+	KindClash          // a name is used on a list or an index on a dictionary: outside the modelled domain
 )
 
 func (s Status) String() string {
